@@ -211,7 +211,7 @@ func init() {
 	registerProp(&propDef{ID: "C08", Rules: func(cx *Ctx) []Obligation { return append(rulesC08(cx), rulesC08Widths(cx)...) }, Floor: 10,
 		Expl: "Narrow structural clauses only: InverseExtension must-asserts IsZero(a[0])·IsZero(a[1]) == 0 (zero test over both coordinates); DivExtension passes its divisor itself to InverseExtension on every path; every quotient width that reaches the witnessed reduction (including from the extension API) admits a single result (W1) and the reduction/MulAdd hint discipline holds (R1). The field identities are not decided.",
 		Rule: "one obligation per clause"})
-	registerProp(&propDef{ID: "C09", Rules: func(cx *Ctx) []Obligation { return append(append(rulesC09(cx), rulesC09Function(cx)...), ruleSpongeOverwrite(cx)...) }, Floor: 9,
+	registerProp(&propDef{ID: "C09", Rules: func(cx *Ctx) []Obligation { return append(append(append(rulesC09(cx), rulesC09Function(cx)...), ruleSpongeOverwrite(cx)...), ruleSpongeSqueeze(cx)...) }, Floor: 10,
 		Expl: "Narrow structural clauses only: HashNoPad reduces every input (full-range loop) and hands only reduction results to the sponge; the permutation is a function: R1/W1 for every hint site reached from the Goldilocks Poseidon (widths of the s-box reductions); sibling constant tables used by the base and extension implementations agree element-wise and every table constant is < p. Equality with plonky2's Poseidon for all inputs is not decided.",
 		Rule: "one obligation per clause, per reaching width, per table"})
 	registerProp(&propDef{ID: "C06", Rules: rulesC06, Floor: 14,
